@@ -179,7 +179,7 @@ def load_findings():
     if os.path.exists(path):
         for line in open(path):
             line = line.strip()
-            if not line or line.startswith('#'):
+            if not line or line.startswith('#') or line.startswith('fixed:'):
                 continue
             rec = json.loads(line)
             if rec.get('status') == 'open':
